@@ -345,6 +345,26 @@ def case_random_filter(H, N, D, num):
 
 def case_camera(H, npts, with_ext):
     name = 'C18/camera/npts=%d/extrinsics=%s' % (npts, with_ext)
+    extra = {}
+
+    def replay(model):
+        P = tensor_from_env(['p%d' % i for i in range(3 * npts)], model).view(npts, 3)
+        K = tensor_from_env(['k%d' % i for i in range(9)], model).view(3, 3)
+        if float(K.abs().sum()) == 0 or float(P.abs().sum()) == 0:
+            P = torch.rand(npts, 3, dtype=DT) + 1
+            K = torch.tensor([[2.0, 0.3, 4.5], [0, 2.0, 4.5], [0, 0, 1]], dtype=DT)
+        K = K.clone(); K[1, 0] = 0; K[2, 0] = 0; K[2, 1] = 0; K[2, 2] = 1
+        if K[0, 0] == 0 or K[1, 1] == 0 or (P[:, 2].abs() < 1e-6).any():
+            return False, 'outside the assumptions'
+        d = torch.tensor([float(model.get('d0', 0.7)), float(model.get('d1', -0.7))], dtype=DT)
+        px = pp.point2pixel(P, K)
+        back = pp.pixel2point(px, P[:, 2], K)
+        e1 = (back - P).abs().max().item() / (1 + P.abs().max().item())
+        es_ = pp.reprojerr(P, px + d, K, reduction='sum')
+        e2 = (es_ - d.abs().sum()).abs().max().item()
+        bad = e1 > 1e-9 or e2 > 1e-9 * (1 + d.abs().sum().item())
+        return bad, ('pixel2point(point2pixel(p)) differs from p by %.3g (relative) for K=%s; reprojerr(sum) of pixels displaced by %s is %s (documented: L1 norm %.3g)'
+                     % (e1, K.tolist(), d.tolist(), es_.tolist()[:2], d.abs().sum().item()))
 
     def prog(m):
         gen = torch.Generator().manual_seed(8)
@@ -352,7 +372,8 @@ def case_camera(H, npts, with_ext):
         ps = m.symbolic(P, 'p')
         Kt = torch.tensor([[300.0, 0, 160], [0, 310.0, 120], [0, 0, 1]], dtype=DT)
         ks = m.symbolic(Kt, 'k')
-        m.ctx.assume += [ks[1] == 0, ks[3] == 0, ks[6] == 0, ks[7] == 0, ks[8] == 1, ks[0] != 0, ks[4] != 0]
+        # a pinhole intrinsics matrix [[fx, s, cx], [0, fy, cy], [0, 0, 1]] with ANY skew s and non-zero focal lengths
+        m.ctx.assume += [ks[3] == 0, ks[6] == 0, ks[7] == 0, ks[8] == 1, ks[0] != 0, ks[4] != 0]
         tiny = rat(torch.finfo(DT).tiny)
         ext = None
         es = None
@@ -373,6 +394,13 @@ def case_camera(H, npts, with_ext):
         err = pp.reprojerr(P, px, Kt, ext)
         errn = pp.reprojerr(P, px, Kt, ext, reduction='norm')
         h = pp.homo2cart(pp.cart2homo(P))
+        # "zero exactly for": pixels displaced by d must give |du| + |dv| under 'sum' (documented: L1 norm) and the L2 norm under 'norm'
+        dt_ = torch.tensor([0.7, -0.7], dtype=DT)
+        ds = m.symbolic(dt_, 'd')
+        errs = pp.reprojerr(P, px + dt_, Kt, ext, reduction='sum')
+        errn2 = pp.reprojerr(P, px + dt_, Kt, ext, reduction='norm')
+        extra.clear()
+        extra.update(errs=m.full_terms(errs), errn2=m.full_terms(errn2), ds=ds)
         return m.full_terms(px), m.full_terms(back), m.full_terms(err), m.full_terms(errn), m.full_terms(h), ps, ks, cam
 
     for ctx, (px, back, err, errn, h, ps, ks, cam) in run_paths(H, name, prog, max_paths=16):
@@ -381,19 +409,95 @@ def case_camera(H, npts, with_ext):
         fx, fy, cx, cy = ks[0], ks[4], ks[2], ks[5]
         for i in range(npts):
             X, Y, Z = cam[i]
-            H.prove('%s/path%d/point2pixel[%d]' % (name, pn, i), hyp, z3.And(px[2 * i] == fx * X / Z + cx, px[2 * i + 1] == fy * Y / Z + cy),
-                    key='C18/camera/point2pixel', timeout=20)
+            sk = ks[1]
+            H.prove('%s/path%d/point2pixel[%d]' % (name, pn, i), hyp, z3.And(px[2 * i] == (fx * X + sk * Y) / Z + cx, px[2 * i + 1] == fy * Y / Z + cy),
+                    key='C18/camera/point2pixel', timeout=20, replay=(replay if not with_ext else None))
             H.prove('%s/path%d/pixel2point-inverse[%d]' % (name, pn, i), hyp, z3.And([back[3 * i + c] == cam[i][c] for c in range(3)]),
-                    key='C18/camera/inverse', timeout=20)
+                    key='C18/camera/inverse', timeout=20, replay=(replay if not with_ext else None))
         H.prove('%s/path%d/reprojerr==0' % (name, pn), hyp, z3.And([e == 0 for e in err + errn]), key='C18/camera/reprojerr', timeout=20)
+        ab = lambda e_: z3.If(e_ >= 0, e_, -e_)
+        ds = extra['ds']
+        for i in range(npts):
+            H.prove('%s/path%d/reprojerr(sum)==|du|+|dv|[%d]' % (name, pn, i), hyp, extra['errs'][i] == ab(ds[0]) + ab(ds[1]), key='C18/camera/reprojerr',
+                    timeout=20, replay=(replay if not with_ext else None))
+            H.prove('%s/path%d/reprojerr(norm)^2==du^2+dv^2[%d]' % (name, pn, i), hyp, extra['errn2'][i] * extra['errn2'][i] == ds[0] * ds[0] + ds[1] * ds[1],
+                    key='C18/camera/reprojerr', timeout=20)
         H.prove('%s/path%d/homo2cart(cart2homo)' % (name, pn), hyp, z3.And([a == b for a, b in zip(h, ps)]), key='C18/camera/homo', timeout=20)
         if pn % 2 == 0:
             H.reach('%s/path%d/reach' % (name, pn), hyp)
 
 
+def case_camera_batched(H, B, N):
+    """Configuration case: a batch of B cameras (intrinsics (B,3,3), as documented "(..., 3, 3)") with N points each. The batched
+    pixel2point(point2pixel(P)) must give back P camera by camera; N != B on purpose (an alignment of B with N cannot hide)."""
+    name = 'C18/camera-batched/B=%d/N=%d' % (B, N)
+
+    def concrete(model):
+        P = tensor_from_env(['p%d' % i for i in range(3 * B * N)], model).view(B, N, 3)
+        K = tensor_from_env(['k%d' % i for i in range(9 * B)], model).view(B, 3, 3)
+        if float(K.abs().sum()) == 0 or float(P.abs().sum()) == 0 or (P[..., 2].abs() < 1e-6).any() or (K[:, 0, 0] == 0).any() or (K[:, 1, 1] == 0).any():
+            gen = torch.Generator().manual_seed(3)
+            P = torch.rand(B, N, 3, dtype=DT, generator=gen) + 1
+            K = torch.stack([torch.tensor([[2.0 + b, 0.3 * b, 4.5], [0, 3.0 - b, 4.0 + b], [0, 0, 1]], dtype=DT) for b in range(B)])
+        K = K.clone(); K[:, 1, 0] = 0; K[:, 2, 0] = 0; K[:, 2, 1] = 0; K[:, 2, 2] = 1
+        return P, K
+
+    def replay(model):
+        P, K = concrete(model)
+        try:
+            px = pp.point2pixel(P, K)
+            back = pp.pixel2point(px, P[..., 2], K)
+        except Exception as e:
+            return True, 'B=%d cameras with N=%d points each: %s: %s' % (B, N, type(e).__name__, str(e)[:120])
+        ref = torch.stack([pp.pixel2point(pp.point2pixel(P[b], K[b]), P[b, :, 2], K[b]) for b in range(B)])
+        e1 = (back - P).abs().max().item() / (1 + P.abs().max().item())
+        e2 = (back - ref).abs().max().item() / (1 + P.abs().max().item())
+        return (e1 > 1e-9 or e2 > 1e-9), 'batched intrinsics: pixel2point(point2pixel(P)) differs from P by %.3g, from the camera-by-camera result by %.3g (relative)' % (e1, e2)
+
+    def prog(m):
+        gen = torch.Generator().manual_seed(8)
+        P = torch.randn(B, N, 3, dtype=DT, generator=gen) + torch.tensor([0, 0, 4.0], dtype=DT)
+        ps = m.symbolic(P, 'p')
+        Kt = torch.stack([torch.tensor([[300.0 + 10 * b, 0.5 * b, 160], [0, 310.0 - 5 * b, 120 + b], [0, 0, 1]], dtype=DT) for b in range(B)])
+        ks = m.symbolic(Kt, 'k')
+        tiny = rat(torch.finfo(DT).tiny)
+        for b in range(B):
+            k = ks[9 * b:9 * b + 9]
+            m.ctx.assume += [k[3] == 0, k[6] == 0, k[7] == 0, k[8] == 1, k[0] != 0, k[4] != 0]
+        for i in range(B * N):
+            m.ctx.assume += [z3.Or(ps[3 * i + 2] >= tiny, ps[3 * i + 2] <= -tiny)]
+        px = pp.point2pixel(P, Kt)
+        back = pp.pixel2point(px, P[..., 2], Kt)
+        return m.full_terms(px), m.full_terms(back), tuple(back.shape), ps, ks
+
+    def on_raise(ctx, e):
+        H.absorb(ctx)
+        bad, det = replay(dict(ctx.env))
+        if bad:
+            H.violation('C18/camera/inverse', '%s: %s' % (name, det), {'case': name, 'model': {k: v for k, v in ctx.env.items() if isinstance(v, float)}})
+        else:
+            H.prove('%s/raising-path%d-infeasible' % (name, H.paths), H.hyps_of(ctx), z3.BoolVal(False), replay=replay, key='C18/camera/inverse', timeout=20)
+
+    for ctx, (px, back, shape, ps, ks) in run_paths(H, name, prog, max_paths=16, raised=on_raise):
+        hyp = H.hyps_of(ctx)
+        pn = H.paths
+        H.prove('%s/path%d/shape' % (name, pn), [], z3.BoolVal(shape == (B, N, 3)), replay=replay, key='C18/camera/inverse')
+        if shape != (B, N, 3):
+            continue
+        for b in range(B):
+            k = ks[9 * b:9 * b + 9]
+            for i in range(N):
+                o = b * N + i
+                X, Y, Z = ps[3 * o:3 * o + 3]
+                H.prove('%s/path%d/point2pixel[%d,%d]' % (name, pn, b, i), hyp,
+                        z3.And(px[2 * o] == (k[0] * X + k[1] * Y) / Z + k[2], px[2 * o + 1] == k[4] * Y / Z + k[5]), key='C18/camera/point2pixel', timeout=20, replay=replay)
+                H.prove('%s/path%d/pixel2point-inverse[%d,%d]' % (name, pn, b, i), hyp, z3.And([back[3 * o + c] == ps[3 * o + c] for c in range(3)]),
+                        key='C18/camera/inverse', timeout=20, replay=replay)
+
+
 def run(H):
     H.assumptions += ['exact real arithmetic', 'ties between distances excluded where indices matter (general position)',
-                      'intrinsics of the pinhole form [[fx,0,cx],[0,fy,cy],[0,0,1]] with fx,fy != 0; |depth| >= tiny']
+                      'intrinsics of the pinhole form [[fx,s,cx],[0,fy,cy],[0,0,1]] with fx,fy != 0 and any skew s; |depth| >= tiny']
     H.bounds += ['clouds of N<=3 points (thorough 4), dimensions 1-2 (+1 feature channel), k<=2, norms 1/2/inf',
                  'every ordering / partition of the points reachable by decisions is explored (paths capped at 128 per case)']
     N = 3
@@ -413,6 +517,8 @@ def run(H):
     jobs.append(lambda: case_random_filter(H, 3, 3, 3))
     jobs.append(lambda: case_camera(H, 2, False))
     jobs.append(lambda: case_camera(H, 1, True))
+    jobs.append(lambda: case_camera_batched(H, 2, 3))
+    jobs.append(lambda: case_camera_batched(H, 2, 2))
     if not H.quick:
         jobs.append(lambda: case_knn(H, 2, 4, 2, 2, 2))
         jobs.append(lambda: case_knn_filter(H, 4, 1, 2, 1.0, 0))
